@@ -453,7 +453,6 @@ func checkC06(c *Ctx) {
 	_ = token.NoPos
 }
 
-
 // onlyCalledFrom: f is an unexported function that is only ever called (never started, stored or passed) and whose
 // every caller is the named function or, up to depth levels, a function that is itself only called from it.
 func onlyCalledFrom(f *ssa.Function, name string, depth int) bool {
